@@ -140,6 +140,10 @@ def write_case(rng):
     a = rand_vec(rng, ln, start)
     if all(x[0] == "N" for x in a):
         a[0] = start[0]
+    if rng.random() < 0.2 and ln >= 2:
+        # an OBJECT vector (kinds that do not agree) holding no None: a None written into it makes it nullable like any other
+        a = [rng.choice([["i", 1], ["s", "x"], ["f", (1.5).hex()]]) for _ in range(ln)]
+        a[0], a[1] = ["i", 1], ["s", "x"]
     form = rng.choice(["slice", "mask", "idx", "int", "table"])
     pos = sorted(rng.sample(range(ln), rng.randint(1, ln))) if form != "int" else [rng.randrange(ln)]
     if form == "slice":
@@ -158,7 +162,10 @@ def lshift_case(rng):
         a[0] = ladder[0]
     over = rng.choice([["b", False], ["i", 1]]) if top >= 1 else ["b", False]
     return {"op": "lshift", "a": a, "over": over, "overwrite": rng.random() < 0.8,
-            "vals": rand_vec(rng, rng.randint(0, 3), ladder[:rng.randint(1, 4)] + ([["N"]] if rng.random() < 0.3 else []))}
+            "vals": rand_vec(rng, rng.randint(0, 3), ladder[:rng.randint(1, 4)] + ([["N"]] if rng.random() < 0.3 else [])),
+            # the right operand as a list, or as a VECTOR whose schema is wider than the values it holds now (a slice of a
+            # nullable / wider vector that left the None / the wide value behind): the result is typed by the appended VALUES
+            "right": rng.choice(["list", "list", "vec_nullable", "vec_wider"])}
 
 
 def callsite_cases(rng, n):
@@ -271,8 +278,21 @@ def observe(case):
                 for i in range(len(v)):
                     v[i] = V.dec(case["over"])               # every None / wide value is gone; the dtype stays
             before = V.schema_obs(v.schema())
-            r = v << [V.dec(x) for x in case["vals"]]
-            return {"before": before, "left": [V.enc(x) for x in v._underlying],
+            rv = [V.dec(x) for x in case["vals"]]
+            right = rv
+            if case.get("right") == "vec_nullable" and rv and all(x is not None for x in rv):
+                right = Vector(rv + [None])[0:len(rv)]
+            elif case.get("right") == "vec_wider" and rv and all(type(x) in (bool, int) for x in rv):
+                right = Vector(rv + [2.5])[0:len(rv)]          # typed <float>, holding the ints / bools as they were given
+                if [type(x) for x in right._underlying] != [type(x) for x in rv]:
+                    right = rv
+            try:
+                r = v << right
+            except Exception as e:                           # noqa: BLE001
+                if isinstance(right, Vector):
+                    return {"skip": f"refused: {type(e).__name__}"}
+                raise
+            return {"before": before, "left": [V.enc(x) for x in v._underlying], "appended": case["vals"],
                     "cols": [{"vals": [V.enc(x) for x in r._underlying], "dt": V.schema_obs(r.schema())}]}
         if op == "write":
             v = Vector([V.dec(x) for x in case["a"]])
@@ -350,13 +370,14 @@ def emit(case, obs):
         if d is None or obs["cols"][0]["dt"] is None:
             return "CSkip"
         steps = []
-        for i, x in enumerate(case["vals"]):
+        app = obs.get("appended", case["vals"])
+        for i, x in enumerate(app):
             nxt = [d[0], True] if x[0] == "N" else [V.join_kind(d[0], V.tag_kind(x)), d[1]]
-            if i == len(case["vals"]) - 1:
+            if i == len(app) - 1:
                 nxt = obs["cols"][0]["dt"]
             steps.append(f"CPromote {V.coq_dtype(d)} {V.tag_vinfo(x)} {V.coq_dtype(nxt)}")
             d = nxt
-        if not case["vals"] and obs["cols"][0]["dt"] != d:
+        if not app and obs["cols"][0]["dt"] != d:
             return "CBad"
         return "CAll " + clist(steps)
     if op == "write":
@@ -411,14 +432,15 @@ def oracle(case, obs):
         if obs["before"] is None:
             return None
         k, nl = obs["before"]
-        for x in case["vals"]:
+        for x in obs["appended"]:
             if x[0] == "N":
                 nl = True
             else:
                 k = V.join_kind(k, V.tag_kind(x))
         c = obs["cols"][0]
         if c["dt"] != [k, nl]:
-            return (f"callsite-lshift: a vector typed {obs['before']} holding {obs['left']} << {case['vals']} is typed "
+            return (f"callsite-lshift: a vector typed {obs['before']} holding {obs['left']} << {obs['appended']} "
+                    f"({case.get('right', 'list')}) is typed "
                     f"{c['dt']}; promoting the left dtype by every appended value gives {[k, nl]}")
         return None
     if op == "write":
